@@ -85,9 +85,9 @@ Definition check_ccase (c : ccase) : bool :=
       | None => true
       end &&
       match cc_resave c with
-      | Some (Some j) => match cert_to_json (key_of c) crt with
+      | Some (Some j) => match cert_to_json crt with
                          | Some j' => json_eqb j' j | None => false end
-      | Some None => match cert_to_json (key_of c) crt with Some _ => false | None => true end
+      | Some None => match cert_to_json crt with Some _ => false | None => true end
       | None => true
       end
   end.
